@@ -19,7 +19,7 @@ RULE = (
     "measurement process (expval/var/probs/sample/counts/state/density_matrix/purity/vn_entropy/mutual_info over generated observables / wires). "
     "b = an independent rebuild from the same spec, copy.copy, copy.deepcopy and a pytree flatten/unflatten round trip. c = a single-field mutation of "
     "the spec chosen among: one parameter shifted by 1e-3 / 0.1 / 2pi / 4pi / 1e-12, one wire relabelled or two wires swapped, one hyperparameter "
-    "changed (pauli word letter, control value, dim, rotation axis, order ...), control value flipped, control wires swapped, coefficient / scalar "
+    "changed (pauli word letter, control value, dim, rotation axis, order ...), control value flipped, control wires swapped / replaced / one added, coefficient / scalar "
     "changed, operand order swapped, exponent changed, gate class replaced by one with the same signature, measurement kind / log base / wires "
     "changed. Oracle: qp.equal(a,a); qp.equal(a,b) and qp.equal(b,a) and hash(a)==hash(b) and {a,b} has one element; "
     "qp.equal(a,c)==qp.equal(c,a) for every structural mutation or shift >= 1e-3; qp.equal(x,y) True => the matrices of x and y on the joint wire "
@@ -133,6 +133,7 @@ def _sites(s, path=()):
         if len(s["cw"]) >= 2:
             out.append((path, "control-swap"))
         out.append((path, "control-wire"))
+        out.append((path, "control-add"))
     if kind in ("adjoint", "pow", "ctrl", "prod", "sum"):
         out.append((path, "wrap-adjoint"))
     if "w" in s or "p" in s:  # leaf
@@ -183,7 +184,10 @@ def mutate(a, site_i, how, fresh):
     sites = _sites(a)
     if not sites:
         return None
-    path, kind = sites[site_i % len(sites)]
+    kinds = sorted({k for _, k in sites})  # pick the kind first so that rare kinds (hyperparameter, control value, ...) are not drowned by wires
+    knd = kinds[site_i % len(kinds)]
+    cands = [st_ for st_ in sites if st_[1] == knd]
+    path, kind = cands[(site_i // 97) % len(cands)]
     node = _get(a, path)
     delta = DELTAS[how % len(DELTAS)]
     new = dict(node)
@@ -239,6 +243,8 @@ def mutate(a, site_i, how, fresh):
         v = kw[k]
         if isinstance(v, bool):
             kw[k] = not v
+        elif k == "rotation" and v in ("RX", "RY", "RZ"):
+            kw[k] = {"RX": "RY", "RY": "RZ", "RZ": "RX"}[v]
         elif isinstance(v, str) and v:
             alphabet = "XYZ" if set(v) <= set("XYZI") else v + "_"
             ch = alphabet[(alphabet.index(v[0]) + 1) % len(alphabet)] if v[0] in alphabet else "X"
@@ -305,6 +311,9 @@ def mutate(a, site_i, how, fresh):
         cw = list(node["cw"])
         cw[how % len(cw)] = fresh
         new["cw"] = cw
+    elif kind == "control-add":
+        new["cw"] = list(node["cw"]) + [fresh]
+        new["cv"] = list(node.get("cv") or [1] * len(node["cw"])) + [how % 2]
     elif kind == "wrap-adjoint":
         new = {"op": "adjoint", "base": node}
     elif kind == "mp-kind":
@@ -423,7 +432,9 @@ def check(spec):
         if not _eq(x, y) or not _eq(y, x):
             raise Viol("twin-not-equal", f"{how}: qp.equal(a,b)={_eq(x, y)} qp.equal(b,a)={_eq(y, x)} for {a} -> {x!r} vs {y!r}", sig=f"{sig}:{how}", features=feats)
         if hash(x) != hash(y):
-            raise Viol("twin-hash", f"{how}: hash differs for {a} -> {x!r}", sig=f"{sig}:{how}", features=feats)
+            hs = any(n in repr(a) for n in ("'HilbertSchmidt'", "'LocalHilbertSchmidt'"))  # input class of a reported finding
+            raise Viol("twin-hash", f"{how}: hash differs for {a} -> {x!r}", sig="contains-HilbertSchmidt" if hs else f"{sig}:{how}",
+                       features={**feats, "hilbert_schmidt": hs})
         if len({x, y}) != 1:
             raise Viol("twin-set", f"{how}: {{a, b}} has two elements for {a}", sig=f"{sig}:{how}", features=feats)
     # mutation
